@@ -34,6 +34,10 @@ def ACOS(
     https://support.office.com/en-us/article/
         acos-function-cb73173f-d089-4582-afa1-76e5524b5d5b
     """
+    if number < -1 or number > 1:
+        raise xlerrors.NumExcelError(f'number {number} must be between '
+                                     f'-1 and 1')
+
     return np.arccos(float(number))
 
 
